@@ -101,8 +101,10 @@ impl ClientHello {
 
 impl Default for ClientHello {
     fn default() -> Self {
-        const CAPABILITIES: &[Capability] =
-            &[Capability::Base(Base::V1_0), Capability::Base(Base::V1_1)];
+        // Only end-of-message framing (:base:1.0) is implemented. Advertising :base:1.1 would
+        // oblige us to switch to chunked framing (RFC 6242, section 4.1) whenever the server
+        // supports it too.
+        const CAPABILITIES: &[Capability] = &[Capability::Base(Base::V1_0)];
         Self::new(CAPABILITIES)
     }
 }
